@@ -186,6 +186,28 @@ class SymEnv:
     def raw(self, buf):
         return RawSym(buf)
 
+    def pickle_roundtrip(self, objs):
+        """pickle.loads(pickle.dumps(objs)) for objects on symbolic buffers (stub S10): the object protocol that pickle
+        drives -- __reduce_ex__(4), the classes' own __getstate__/__setstate__ or the instance __dict__, one memo so that
+        what was shared stays shared -- is run in Python by copy.deepcopy over the real classes; leaves that pickle
+        serialises by value (integers: here solver terms; the buffer's byte array: here the write-log) are copied by
+        value; classes are passed by reference, as pickle does for importable classes."""
+        import copy
+
+        for o in objs:
+            for k in type(o).__mro__:
+                if k.__module__.startswith("xobjects") and ("__deepcopy__" in vars(k) or "__copy__" in vars(k)):
+                    raise symx.Inconclusive(f"{k.__name__} defines __deepcopy__/__copy__: the copy protocol would differ from pickle's")
+        out = copy.deepcopy(list(objs), {})
+        seen = set(id(b) for b in self.world.buffers)
+        for c in out:
+            b = getattr(c, "_buffer", None)
+            if b is not None and id(b) not in seen and getattr(b, "_is_symbuffer", False):
+                seen.add(id(b))
+                b.name = b.name + "~"
+                self.world.buffers.append(b)
+        return out
+
     def poison_reads(self):
         return self.world.stats["poison_cells"]
 
@@ -198,7 +220,12 @@ class Failure(Exception):
     pass
 
 
+_rec = {}
+
+
 def make_recbuffer(kind):
+    if kind in _rec:
+        return _rec[kind]
     base = KINDS[kind]
 
     class Rec(base):
@@ -220,7 +247,10 @@ def make_recbuffer(kind):
                     self.events.append(("alloc", self, off, size))
             return off
 
-    Rec.__name__ = "Rec" + kind
+    Rec.__name__ = Rec.__qualname__ = "Rec" + kind  # importable by name: instances can be pickled
+    Rec.__module__ = __name__
+    globals()[Rec.__name__] = Rec
+    _rec[kind] = Rec
     return Rec
 
 
@@ -236,6 +266,11 @@ class ConcCtx(ContextCpu):
         b.events = self._env.events
         self._env.buffers.append(b)
         return b
+
+    def __getstate__(self):  # the harness back-pointer is not part of the context's state
+        st = ContextCpu.__getstate__(self)
+        st.pop("_env", None)
+        return st
 
 
 class ConcEnv:
@@ -366,6 +401,37 @@ class ConcEnv:
 
     def raw(self, buf):
         return RawConc(buf)
+
+    def pickle_roundtrip(self, objs):
+        """the real thing: pickle.loads(pickle.dumps(objs)); classes are registered so that they are importable"""
+        import pickle
+        import sys
+
+        mod = sys.modules[__name__]
+        for o in objs:
+            k = type(o)
+            for c in [k] + ([k._XoStruct] if hasattr(k, "_XoStruct") else []):
+                c.__module__ = __name__
+                c.__qualname__ = c.__name__
+                setattr(mod, c.__name__, c)  # looked up by name at dumps and at loads, both just below
+        saved = [(b, b.events) for b in self.buffers]
+        for b in self.buffers:
+            b.events = None
+        try:
+            out = pickle.loads(pickle.dumps(list(objs)))
+        finally:
+            for b, ev in saved:
+                b.events = ev
+        seen = set(id(b) for b in self.buffers)
+        for c in out:
+            b = getattr(c, "_buffer", None)
+            if b is not None and id(b) not in seen:
+                seen.add(id(b))
+                b.events = self.events
+                if hasattr(b.context, "__dict__"):
+                    b.context._env = self
+                self.buffers.append(b)
+        return out
 
     def poison_reads(self):
         return 0
